@@ -18,7 +18,7 @@ CONFIG = dict(
     assumptions=["Resize is only called with non-negative bounds (the constructors reject negative sizes)",
                  "GetOldest does not change recency (its doc comment describes a pure read)",
                  "Add/Resize/ContainsOrAdd/PeekOrAdd return the number of evicted entries (named result 'evicted int')"],
-    level_more='One stored value in six is the nil interface.',
+    level_more='One stored value in six is the nil interface. The caller overwrites every list Keys() returned; one case in eight uses no weight limit bounds.',
     units=[
         dict(test="TestC29Model", quick=20000, thorough=3200000, shards=16, steps=60),
         dict(test="FuzzC29", kind="fuzz", fuzztime="60s", tiers=["thorough"]),
